@@ -9,7 +9,34 @@ from tools import vlib
 TRUSTED = ["verif-hooks assertions (repo commit 9feafe1, feature-gated, add-only) inside Tensor::get_reference_unchecked(_mut), Matrix::_get_reference_unchecked(_mut), MatrixPart::get_reference_unchecked(_mut)"]
 
 
+def own_cases(tier, rng):
+    """panic injection: a user closure / iterator panics on call k+1 of a mutating call, the
+    panic is caught, the surviving object is dumped through checked and unchecked paths"""
+    from tools.vlib import sx
+    for rows in range(1, 4):
+        for cols in range(1, 4):
+            n = rows * cols
+            for k in range(0, n + 2):
+                yield sx([10, 1, rows, cols, k])
+                yield sx([10, 2, rows, cols, k])
+            for pos in range(0, 5):
+                for nv in range(0, 6):
+                    vals = [500 + i for i in range(nv)]
+                    for k in range(0, nv + 3):
+                        yield sx([10, 3, rows, cols, pos, vals, k])
+                        yield sx([10, 4, rows, cols, pos, vals, k])
+    for lens in ([], [1], [3], [2, 2], [2, 3], [3, 1, 2], [2, 2, 2]):
+        n = 1
+        for x in lens:
+            n *= x
+        for k in range(0, n + 2):
+            yield sx([10, 5, lens, k])
+            yield sx([10, 6, lens, k])
+
+
 def gen(tier, rng):
+    for c in own_cases(tier, rng):
+        yield c
     per = 2500 if tier == "quick" else 25000
     for p in vlib.ACTIVE:
         if p in ("C10", "C00"):
